@@ -23,6 +23,10 @@ def units():
                   "kind": "enumerated(channels=%d)" % ch, "tier": "thorough" if withmax else "quick",
                   "trusted": ["sf_command / sf_seek / sf_read_double: clauses proved in the sndfile.c units, restated as replacement contracts",
                               "environment: input is finite, every non-empty read consumes some of it (termination measure)"]})
+    U.append({"name": "command.format_lists", "props": ["C10", "C09"], "harness": "format_lists.harness.c", "entry": "h_format_lists", "dfcc": False,
+              "function": "command.c:psf_get_format_simple/_major/_subtype/_info + counts; sndfile.c:sf_format_check", "link_sources": ["sndfile.c"],
+              "cbmc_flags": ["--object-bits", "9", "--unwind", "80"], "timeout": 900,
+              "kind": "proof(list index symbolic; constant tables unwound completely)", "trusted": []})
     return U
 
 
